@@ -115,6 +115,17 @@ Lemma mvmul_0 (m : RM) : mvmul Rops m v0 = v0.
 Proof. destruct m as [[r1 r2] r3]. unfold v0. vd. unfold mvmul. vu. f_equal; [f_equal|]; ring. Qed.
 (* rotation matrices: R R^T = identity *)
 Definition orthogonal (m : RM) : Prop := forall v : RV, mvmul Rops m (mtvmul Rops m v) = v.
+Notation RQ := (@quat R).
+(* quaternion::rotation_matrix of a unit quaternion is orthogonal, and that of the conjugate (rotation::inverse) is its transpose *)
+Lemma rotmat_orthogonal (q : RQ) : qnorm2 Rops q = 1 -> orthogonal (rotmat Rops q).
+Proof.
+  destruct q as [[[q0 q1] q2] q3]. unfold qnorm2, orthogonal, rotmat, mvmul, mtvmul. rs. intros H [[x y] z]. vu.
+  assert (E : forall a b, a = b -> a = b * ((q0 * q0 + q1 * q1 + q2 * q2 + q3 * q3) * (q0 * q0 + q1 * q1 + q2 * q2 + q3 * q3)))
+    by (intros a b ->; rewrite H; ring).
+  f_equal; [f_equal|]; (etransitivity; [|symmetry; apply E; reflexivity]); ring.
+Qed.
+Lemma rotmat_conj (q : RQ) (v : RV) : mvmul Rops (rotmat Rops (qconj Rops q)) v = mtvmul Rops (rotmat Rops q) v.
+Proof. destruct q as [[[q0 q1] q2] q3]. destruct v as [[x y] z]. unfold qconj, rotmat, mvmul, mtvmul. rs. vu. f_equal; [f_equal|]; ring. Qed.
 
 (* ------------------------------------------------------------------ sums *)
 Lemma tsum_app (l r : list R) : tsum Rops (l ++ r) = tsum Rops l + tsum Rops r.
@@ -675,21 +686,24 @@ Section Rotated.
     rewrite HS. unfold k. field. split; lra.
   Qed.
   Lemma inv_rmsd_rot ids refs extra rotf jdf fc : NoDup ids ->
-    (forall r, In r (refs :: extra) -> length r = length ids) -> orthogonal (rotf pos) ->
-    rmsdrot_value Rops pos ids refs (rotf pos) (rmsdrot_best Rops pos ids refs extra (rotf pos)) <> 0 ->
+    (forall r, In r (refs :: extra) -> length r = length ids) -> qnorm2 Rops (rotf pos) = 1 ->
+    rmsdrot_value Rops pos ids refs (rotmat Rops (rotf pos)) (rmsdrot_best Rops pos ids refs extra (rotmat Rops (rotf pos))) <> 0 ->
     ft (CRmsdRot ids refs extra rotf jdf) (app (CRmsdRot ids refs extra rotf jdf) fc) = fc.
   Proof.
-    intros Hn Hl Ho Hx. cbn [cvc_ft cvc_apply].
-    pose proof (best_copy_In (rot_frame Rops pos ids refs (rotf pos)) refs extra) as Hin.
-    fold (rmsdrot_best Rops pos ids refs extra (rotf pos)) in Hin.
-    apply inv_rmsd_rot_expr; [exact Hn | exact (Hl _ Hin) | exact Ho | exact Hx].
+    intros Hn Hl Hq Hx. cbn [cvc_ft cvc_apply]. cbv zeta.
+    pose proof (best_copy_In (rot_frame Rops pos ids refs (rotmat Rops (rotf pos))) refs extra) as Hin.
+    fold (rmsdrot_best Rops pos ids refs extra (rotmat Rops (rotf pos))) in Hin.
+    rewrite (map_ext _ (mtvmul Rops (rotmat Rops (rotf pos))) (rotmat_conj (rotf pos))).
+    apply inv_rmsd_rot_expr; [exact Hn | exact (Hl _ Hin) | apply rotmat_orthogonal; exact Hq | exact Hx].
   Qed.
 
-  Lemma inv_eigenvector_rot ids refs evec rotf jdf fc : NoDup ids -> length evec = length ids -> orthogonal (rotf pos) ->
+  Lemma inv_eigenvector_rot ids refs evec rotf jdf fc : NoDup ids -> length evec = length ids -> qnorm2 Rops (rotf pos) = 1 ->
     norm2_sum Rops (eig_vec Rops evec) <> 0 ->
     ft (CEigenvectorRot ids refs evec rotf jdf) (app (CEigenvectorRot ids refs evec rotf jdf) fc) = fc.
   Proof.
-    intros Hn Hl Ho Hs. cbn [cvc_ft cvc_apply]. set (Rm := rotf pos) in *.
+    intros Hn Hl Hq Hs. cbn [cvc_ft cvc_apply]. set (Rm := rotmat Rops (rotf pos)) in *.
+    assert (Ho : orthogonal Rm) by (apply rotmat_orthogonal; exact Hq).
+    rewrite (map_ext _ (mtvmul Rops Rm) (rotmat_conj (rotf pos))).
     set (E := eig_vec Rops evec) in *.
     assert (HE : length E = length ids) by (unfold E, eig_vec; rewrite map_length; exact Hl).
     rewrite (adot_ext ids _ _ (aapply Rops ids (map (mvmul Rops Rm) (map (mtvmul Rops Rm) E)) fc))
@@ -730,12 +744,12 @@ Section General.
     - ring.
     - rs. ring.
     - ring.
-    - rewrite (adot_ext _ _ (frot Rops (rotf pos) (fadd Rops (fscale Rops a F) (fscale Rops b G)))
-                 (fadd Rops (fscale Rops a (frot Rops (rotf pos) F)) (fscale Rops b (frot Rops (rotf pos) G))))
+    - cbv zeta. rewrite (adot_ext _ _ (frot Rops (rotmat Rops (rotf pos)) (fadd Rops (fscale Rops a F) (fscale Rops b G)))
+                 (fadd Rops (fscale Rops a (frot Rops (rotmat Rops (rotf pos)) F)) (fscale Rops b (frot Rops (rotmat Rops (rotf pos)) G))))
         by (intros x _; unfold frot, fadd, fscale; rewrite mvmul_vadd, !mvmul_vscale; reflexivity).
       rewrite adot_fadd, !adot_fscale. rs. ring.
-    - rewrite (adot_ext _ _ (frot Rops (rotf pos) (fadd Rops (fscale Rops a F) (fscale Rops b G)))
-                 (fadd Rops (fscale Rops a (frot Rops (rotf pos) F)) (fscale Rops b (frot Rops (rotf pos) G))))
+    - cbv zeta. rewrite (adot_ext _ _ (frot Rops (rotmat Rops (rotf pos)) (fadd Rops (fscale Rops a F) (fscale Rops b G)))
+                 (fadd Rops (fscale Rops a (frot Rops (rotmat Rops (rotf pos)) F)) (fscale Rops b (frot Rops (rotmat Rops (rotf pos)) G))))
         by (intros x _; unfold frot, fadd, fscale; rewrite mvmul_vadd, !mvmul_vscale; reflexivity).
       rewrite adot_fadd, !adot_fscale. ring.
   Qed.
@@ -755,7 +769,7 @@ Section General.
     - apply adot_ext. exact H.
     - f_equal. apply adot_ext. exact H.
     - apply adot_ext. exact H.
-    - f_equal. apply adot_ext. intros x Hx. unfold frot. rewrite (H x Hx). reflexivity.
+    - cbv zeta. f_equal. apply adot_ext. intros x Hx. unfold frot. rewrite (H x Hx). reflexivity.
     - apply adot_ext. intros x Hx. unfold frot. rewrite (H x Hx). reflexivity.
   Qed.
 
@@ -782,7 +796,7 @@ Section General.
     - apply adot_ext. exact H.
     - f_equal. apply adot_ext. exact H.
     - apply adot_ext. exact H.
-    - f_equal. apply adot_ext. intros x Hx. unfold frot. rewrite (H x Hx). reflexivity.
+    - cbv zeta. f_equal. apply adot_ext. intros x Hx. unfold frot. rewrite (H x Hx). reflexivity.
     - apply adot_ext. intros x Hx. unfold frot. rewrite (H x Hx). reflexivity.
   Qed.
 
@@ -1308,15 +1322,15 @@ Proof.
   - intros rc E. destruct Hc as [-> | ->]; [discriminate|]. inversion E; subst.
     unfold ex_refs, vsum, ofnat. cbn [fold_right length]. unfold vadd, vscale, vzero. rs. f_equal; [f_equal|]; ring.
 Qed.
-Definition ex_id : RM := ((1, 0, 0), (0, 1, 0), (0, 0, 1)).
+Definition ex_q : RQ := (1, 0, 0, 0).
 Lemma ex_rotated :
-  (forall v : RV, mvmul Rops ex_id (mtvmul Rops ex_id v) = v) /\
-  rmsdrot_value Rops ex_pos [0%nat; 1%nat] ex_refs ex_id ex_refs <> 0.
+  qnorm2 Rops ex_q = 1 /\
+  rmsdrot_value Rops ex_pos [0%nat; 1%nat] ex_refs (rotmat Rops ex_q) ex_refs <> 0.
 Proof.
   split.
-  - intros [[x y] z]. unfold ex_id, mvmul, mtvmul, vadd, vscale, vdot. rs. f_equal; [f_equal|]; ring.
+  - unfold ex_q, qnorm2. rs. ring.
   - unfold rmsdrot_value, rmsdrot_diff, rot_frame. rewrite ex_cog2.
-    unfold vmean, norm2_sum, tsum, ofnat, ex_refs, ex_id, vsum. cbn [map fold_right length ex_pos vsub_list].
+    unfold vmean, norm2_sum, tsum, ofnat, ex_refs, ex_q, rotmat, vsum. cbn [map fold_right length ex_pos vsub_list].
     unfold mvmul, vnorm2, vdot, vsub, vadd, vscale, vzero. rs. change (IZR (Z.of_nat 2)) with 2.
     apply Rgt_not_eq, Rlt_gt, sqrt_lt_R0. lra.
 Qed.
@@ -1406,15 +1420,19 @@ Lemma thm_inverse_eigenvector : forall (cell : option RV) (mass : nat -> R) (pos
   NoDup ids -> length evec = length ids -> norm2_sum Rops (eig_vec Rops evec) <> 0 ->
   cvc_ft Rops PI cell mass pos (CEigenvector ids refs evec center) (cvc_apply Rops PI cell mass pos (CEigenvector ids refs evec center) fc) = fc.
 Proof. exact inv_eigenvector. Qed.
-Lemma thm_inverse_rmsd_rotated : forall (cell : option RV) (mass : nat -> R) (pos : RF) (ids : list nat) (refs : list RV) (extra : list (list RV)) (rotf : RF -> RM) (jdf : RF -> R) (fc : R),
+Lemma thm_inverse_rmsd_rotated : forall (cell : option RV) (mass : nat -> R) (pos : RF) (ids : list nat) (refs : list RV) (extra : list (list RV)) (rotf : RF -> RQ) (jdf : RF -> R) (fc : R),
   NoDup ids -> (forall r, In r (refs :: extra) -> length r = length ids) ->
-  (forall v : RV, mvmul Rops (rotf pos) (mtvmul Rops (rotf pos) v) = v) ->
-  rmsdrot_value Rops pos ids refs (rotf pos) (rmsdrot_best Rops pos ids refs extra (rotf pos)) <> 0 ->
+  qnorm2 Rops (rotf pos) = 1 ->
+  rmsdrot_value Rops pos ids refs (rotmat Rops (rotf pos)) (rmsdrot_best Rops pos ids refs extra (rotmat Rops (rotf pos))) <> 0 ->
   cvc_ft Rops PI cell mass pos (CRmsdRot ids refs extra rotf jdf) (cvc_apply Rops PI cell mass pos (CRmsdRot ids refs extra rotf jdf) fc) = fc.
 Proof. exact inv_rmsd_rot. Qed.
-Lemma thm_inverse_eigenvector_rotated : forall (cell : option RV) (mass : nat -> R) (pos : RF) (ids : list nat) (refs evec : list RV) (rotf : RF -> RM) (jdf : RF -> R) (fc : R),
+Lemma thm_rotation_matrices : forall q : RQ, qnorm2 Rops q = 1 ->
+  (forall v : RV, mvmul Rops (rotmat Rops q) (mtvmul Rops (rotmat Rops q) v) = v) /\
+  (forall v : RV, mvmul Rops (rotmat Rops (qconj Rops q)) v = mtvmul Rops (rotmat Rops q) v).
+Proof. intros q H. split; [exact (rotmat_orthogonal q H) | exact (rotmat_conj q)]. Qed.
+Lemma thm_inverse_eigenvector_rotated : forall (cell : option RV) (mass : nat -> R) (pos : RF) (ids : list nat) (refs evec : list RV) (rotf : RF -> RQ) (jdf : RF -> R) (fc : R),
   NoDup ids -> length evec = length ids ->
-  (forall v : RV, mvmul Rops (rotf pos) (mtvmul Rops (rotf pos) v) = v) ->
+  qnorm2 Rops (rotf pos) = 1 ->
   norm2_sum Rops (eig_vec Rops evec) <> 0 ->
   cvc_ft Rops PI cell mass pos (CEigenvectorRot ids refs evec rotf jdf) (cvc_apply Rops PI cell mass pos (CEigenvectorRot ids refs evec rotf jdf) fc) = fc.
 Proof. exact inv_eigenvector_rot. Qed.
